@@ -50,7 +50,9 @@ cocls::future<int> create(Alloc &a, int size_class, cocls::future<void> *gate, i
     }
 }
 
-enum { P_DEFAULT, P_REUSABLE, P_REUSABLE_MT, P_STACK, P_PLACEMENT, P_REUSABLE_BUFFER, P_EXTRA, P_COUNT };
+enum { P_DEFAULT, P_REUSABLE, P_REUSABLE_MT, P_STACK, P_PLACEMENT, P_REUSABLE_BUFFER, P_EXTRA, P_COUNT, P_MT_THREADS = P_COUNT };
+// sub-variants of P_EXTRA (taken from the first op byte): type of the attached object x base policy
+enum { X_INT_DEFAULT, X_ALIGN16_DEFAULT, X_INT_MT, X_ALIGN16_MT, X_COUNT };
 struct Op { uint8_t code, a; };
 struct SeqProg { uint8_t policy; std::vector<Op> ops; };
 inline SeqProg decode_seq(hz::Reader &r) {
@@ -58,9 +60,10 @@ inline SeqProg decode_seq(hz::Reader &r) {
     while (r.more() && n < 40) { Op o; o.code = (uint8_t)r.mod(4); o.a = r.u8(); p.ops.push_back(o); n++; }
     return p;
 }
-static const char *pn[] = {"default_storage", "reusable_storage", "reusable_storage_mtsafe", "stack_storage(alloca + heap fallback)", "placement_alloc", "reusable_buffer_storage<vector<char>>", "promise_extra_storage<Extra, default_storage>"};
+static const char *pn[] = {"default_storage", "reusable_storage", "reusable_storage_mtsafe", "stack_storage(alloca + heap fallback)", "placement_alloc", "reusable_buffer_storage<vector<char>>", "promise_extra_storage<Extra, Base>"};
 inline std::string describe_seq(const SeqProg &p) {
-    hz::Desc d; d << pn[p.policy] << ", " << (unsigned)p.ops.size() << " ops:";
+    static const char *xn[] = {"[Extra = 16-byte struct aligned to 4, Base = default_storage]", "[Extra aligned to 16, Base = default_storage]", "[Extra aligned to 4, Base = reusable_storage_mtsafe]", "[Extra aligned to 16, Base = reusable_storage_mtsafe]"};
+    hz::Desc d; d << pn[p.policy]; if (p.policy == P_EXTRA) d << xn[p.ops.empty() ? 0 : p.ops[0].a / 3 % X_COUNT]; d << ", " << (unsigned)p.ops.size() << " ops:";
     for (auto &o : p.ops) {
         if (o.code == 2) { d << " complete(#" << (unsigned)o.a << ")"; continue; }
         if (p.policy != P_STACK && o.code == 3 && (o.a & 4)) d << " [movable policy with no live frame: move the storage object away and back; otherwise:]";
@@ -71,13 +74,16 @@ inline std::string describe_seq(const SeqProg &p) {
     return d.s;
 }
 
-struct Extra {
-    int tag;
-    explicit Extra(int t) : tag(t) { hz::slot_add(35, 1); hz::slot_add(36, 1); }
-    Extra(Extra &&o) noexcept : tag(o.tag) { hz::slot_add(36, 1); }
-    Extra(const Extra &o) : tag(o.tag) { hz::slot_add(36, 1); }
-    ~Extra() { hz::slot_add(36, -1); }
+template<int AL>
+struct alignas(AL) ExtraT {
+    int tag; int pad[3] = {0, 0, 0};
+    explicit ExtraT(int t) : tag(t) { hz::slot_add(35, 1); hz::slot_add(36, 1); }
+    ExtraT(ExtraT &&o) noexcept : tag(o.tag) { hz::slot_add(36, 1); }
+    ExtraT(const ExtraT &o) : tag(o.tag) { hz::slot_add(36, 1); }
+    ~ExtraT() { hz::slot_add(36, -1); }
 };
+using Extra = ExtraT<4>;
+using Extra16 = ExtraT<16>;          // alignment of long double / SSE vectors: not more than operator new guarantees
 
 struct SeqStats { unsigned creates = 0, reuse_hits = 0, fallbacks = 0, max_live = 0; };
 
@@ -164,6 +170,31 @@ struct SeqRun {
             complete(f);
         }
     }
+    // storage with an attached extra object: one storage object per coroutine, the extra object is reachable through it
+    // as soon as the coroutine object exists; E's alignment and the base policy vary (a base policy that looks at the
+    // size it is given back must get the size it handed out)
+    template<class E, class Base>
+    void extra_history(const SeqProg &p) {
+        using XS = tracked<cocls::promise_extra_storage<E, Base>>;
+        std::vector<std::unique_ptr<XS>> stor;
+        for (auto &o : p.ops) {
+            if (o.code == 2) { if (!frames.empty()) { Frame &f = *frames[o.a % frames.size()]; bool was = f.live; long alive = hz::slot_get(36); complete(f); if (was) HZ_CHECK(hz::slot_get(36) == alive - 1, "the attached extra object was not destroyed together with its frame"); } continue; }
+            int sc = o.a % 3; int tag = 500 + next_id;
+            long built = hz::slot_get(35);
+            stor.emplace_back(new XS([tag] { return E(tag); }));
+            Frame &f = new_frame(sc);
+            f.result.reset(new cocls::future<int>(create(*stor.back(), sc, f.gate.f.get(), next_id++)));
+            st.creates++;
+            HZ_CHECK(hz::slot_get(35) == built + 1, "the attached extra object was constructed %ld times for one coroutine", hz::slot_get(35) - built);
+            E *e = &**stor.back();
+            HZ_CHECK(reinterpret_cast<std::uintptr_t>(e) % alignof(E) == 0, "the attached extra object lives at %p, which is not aligned to the %zu bytes its type requires", (void *)e, alignof(E));
+            HZ_CHECK(e->tag == tag && (*stor.back())->tag == tag, "the attached extra object is not usable right after the coroutine was created");
+            if (live() > st.max_live) st.max_live = live();
+        }
+        for (auto &f : frames) complete(*f);
+        HZ_CHECK(hz::slot_get(36) == 0, "%ld attached extra objects still alive after every frame was released", hz::slot_get(36));
+        stor.clear();      // the storages' own blocks are released here, exactly once (ASan: double free / use after free otherwise)
+    }
     void run(const SeqProg &p) {
         switch (p.policy) {
             case P_DEFAULT: { tracked<cocls::default_storage> a; history(a, p, false, false, false); } break;
@@ -183,25 +214,14 @@ struct SeqRun {
                 for (auto &f : frames) (void)f;
             } break;
             case P_REUSABLE_BUFFER: { std::vector<char> buf; tracked<cocls::reusable_buffer_storage<std::vector<char>>> a(buf); history(a, p, true, true, false); } break;
-            default: {
-                // one storage object per coroutine: the extra object is reachable through it as soon as the coroutine object exists
-                using XS = tracked<cocls::promise_extra_storage<Extra, cocls::default_storage>>;
-                std::vector<std::unique_ptr<XS>> stor;
-                for (auto &o : p.ops) {
-                    if (o.code == 2) { if (!frames.empty()) { Frame &f = *frames[o.a % frames.size()]; bool was = f.live; long alive = hz::slot_get(36); complete(f); if (was) HZ_CHECK(hz::slot_get(36) == alive - 1, "the attached extra object was not destroyed together with its frame"); } continue; }
-                    int sc = o.a % 3; int tag = 500 + next_id;
-                    long built = hz::slot_get(35);
-                    stor.emplace_back(new XS([tag] { return Extra(tag); }));
-                    Frame &f = new_frame(sc);
-                    f.result.reset(new cocls::future<int>(create(*stor.back(), sc, f.gate.f.get(), next_id++)));
-                    st.creates++;
-                    HZ_CHECK(hz::slot_get(35) == built + 1, "the attached extra object was constructed %ld times for one coroutine", hz::slot_get(35) - built);
-                    HZ_CHECK((**stor.back()).tag == tag && (*stor.back())->tag == tag, "the attached extra object is not usable right after the coroutine was created");
-                    if (live() > st.max_live) st.max_live = live();
+            default:
+                switch (p.ops.empty() ? 0 : p.ops[0].a / 3 % X_COUNT) {
+                    case X_INT_DEFAULT: extra_history<Extra, cocls::default_storage>(p); break;
+                    case X_ALIGN16_DEFAULT: extra_history<Extra16, cocls::default_storage>(p); break;
+                    case X_INT_MT: extra_history<Extra, cocls::reusable_storage_mtsafe>(p); break;
+                    default: extra_history<Extra16, cocls::reusable_storage_mtsafe>(p); break;
                 }
-                for (auto &f : frames) complete(*f);
-                HZ_CHECK(hz::slot_get(36) == 0, "%ld attached extra objects still alive after every frame was released", hz::slot_get(36));
-            } break;
+                break;
         }
         HZ_CHECK(hz::slot_get(32) == hz::slot_get(33), "%ld frames handed out, %ld released", hz::slot_get(32), hz::slot_get(33));
         HZ_CHECK(hz::range_count() == 0, "%d frames still registered as alive at the end", hz::range_count());
@@ -240,7 +260,7 @@ inline void run_mt(const MtProg &p) {
         t0.join(); t1.join();
         HZ_CHECK(hz::slot_get(32) == hz::slot_get(33) && hz::range_count() == 0, "%ld frames handed out, %ld released", hz::slot_get(32), hz::slot_get(33));
     }
-    hz::set_class(P_COUNT);
+    hz::set_class(P_MT_THREADS);
     hz::set_nontrivial(vrt::stats().switches > 0);
 }
 
